@@ -114,7 +114,7 @@ func C17(r *drv.Run) {
 	if !quick(r) {
 		n = 80000
 	}
-	r.Rule = "result lists empty / one / many from find and replace commands, flat captures and named-loop (nested) variables, produced by fixed programs that capture arbitrary bytes and by the any-program generator, over texts with quotes, backslashes, control bytes, <>&, U+2028/2029, multi-byte UTF-8, invalid UTF-8, and code points of every plane (format characters incl. astral tag characters, C1 controls, non-characters, private use, U+10FFFF; fixed and seeded random). Also RunFiles results whose file names need escaping or are spelled in a non-canonical way (quotes, backslash, <&>, non-ASCII, newline and tab in names; dir//name, dir/./name, dir/sub/../name; a directory argument with a trailing slash): the filename member must be the in-memory name, byte for byte. Oracle: Json() and FormattedJson() return without panic, json.Valid, decode to equal documents, one object per match whose fields equal the in-memory match (replacement present iff the match has one); exact string equality is demanded where the in-memory strings are valid UTF-8. Non-trivial = a result list with >= 1 match rendered and decoded; distinct by (program, text)."
+	r.Rule = "result lists empty / one / many from find and replace commands, flat captures and named-loop (nested) variables, produced by fixed programs that capture arbitrary bytes and by the any-program generator, over texts with quotes, backslashes, control bytes, <>&, U+2028/2029, multi-byte UTF-8, invalid UTF-8, and code points of every plane (format characters incl. astral tag characters, C1 controls, non-characters, private use, U+10FFFF; fixed and seeded random). Also RunFiles results whose file names need escaping or are spelled in a non-canonical way (quotes, backslash, <&>, non-ASCII, newline and tab in names; dir//name, dir/./name, dir/sub/../name; a directory argument with a trailing slash): the filename member must be the in-memory name, byte for byte. After the texts of a case a result list that has been rendered is refilled in place with the matches of another text (same length) and rendered again: it must give that other list's document. Oracle: Json() and FormattedJson() return without panic, json.Valid, decode to equal documents, one object per match whose fields equal the in-memory match (replacement present iff the match has one); exact string equality is demanded where the in-memory strings are valid UTF-8. Non-trivial = a result list with >= 1 match rendered and decoded; distinct by (program, text)."
 	r.Assumptions = []string{"strings that are not valid UTF-8 cannot round-trip through JSON; for those only validity, document equality of the two renderings and all non-string fields are demanded"}
 	fixed := len(c17Programs)
 	r.Exec(6*fixed+n, drv.ExecOpts{Batch: 100}, func(i int) *drv.Item {
@@ -154,6 +154,11 @@ func C17(r *drv.Run) {
 					break
 				}
 				c17CheckRun(r, &res.Runs[ti], src, text, &c)
+			}
+			if res.Mismatch != "" {
+				r.Violate(&drv.Violation{Sig: "stale-rendering-of-a-refilled-result-list", Src: src, Case: &c, Detail: map[string]any{"what": res.Mismatch}})
+			} else {
+				r.Count("cases_with_refill_pass", 1)
 			}
 			if i%97 == 0 {
 				r.Sample(map[string]any{"program": src, "text": string(texts[0])})
